@@ -370,7 +370,9 @@ ssize_t _whawty_read_data(int sock, const void* data, size_t len, int timeout)
     }
 
     ssize_t nread = read(sock, (void*)(data + offset), len - offset);
-    if(nread < 0 || (nread == 0 && errno != EINTR)) {
+        // read() returning 0 means whawty has closed the connection. It does not touch errno in
+        // that case, so a stale EINTR left behind by the application must not make us retry forever.
+    if(nread <= 0) {
       return offset;
     }
     offset += nread;
